@@ -43,6 +43,9 @@ type c09Hand struct {
 	// times that differ by a single nanosecond are still distinct.
 	NearNs   int64 `json:"near_ns,omitempty"`
 	NearPick int   `json:"near_pick,omitempty"`
+	// SetsShift != 0 (hand ids only): this version carries the matcher sets of another hand id, so versions
+	// of one id differ in their matchers (nothing on the wire forbids it; the newest version's matchers count).
+	SetsShift int `json:"sets_shift,omitempty"`
 }
 
 type c09Step struct {
@@ -167,6 +170,11 @@ func c09ConvBody(sc c09ConvScenario, idempotentMode bool, w *c09World, out *c09C
 			id = fmt.Sprintf("00000000-0000-4000-8000-%012d", k)
 			sets = sc.HandSets[k]
 			w.sets[id] = sets
+			if h.SetsShift != 0 && len(sc.HandSets) > 1 {
+				sets = sc.HandSets[(k+c09Abs(h.SetsShift))%len(sc.HandSets)]
+				w.classes["matchers-differ-between-versions"] = true
+			}
+			w.noteSets(sets)
 		} else {
 			continue
 		}
@@ -643,7 +651,7 @@ func c09GenConv(t *rapid.T, idempotentMode bool) c09ConvScenario {
 		sc.Author = append(sc.Author, c09AuthorStep{AtMs: at, Op: op})
 	}
 	// hand-built versions
-	nHandIDs := rapid.IntRange(0, 1).Draw(t, "nHandIDs")
+	nHandIDs := rapid.IntRange(0, 2).Draw(t, "nHandIDs")
 	for i := 0; i < nHandIDs; i++ {
 		sc.HandSets = append(sc.HandSets, c09GenSets(t))
 	}
@@ -672,6 +680,9 @@ func c09GenConv(t *rapid.T, idempotentMode bool) c09ConvScenario {
 		if rapid.IntRange(0, 3).Draw(t, "near") == 0 {
 			h.NearNs = rapid.SampledFrom([]int64{-2, -1, 1, 1, 2}).Draw(t, "nearNs")
 			h.NearPick = rapid.IntRange(0, 5).Draw(t, "nearPick")
+		}
+		if !h.OnAuthored && nHandIDs > 1 && rapid.IntRange(0, 2).Draw(t, "setsShift") == 0 {
+			h.SetsShift = rapid.IntRange(1, 3).Draw(t, "setsShiftBy")
 		}
 		sc.Hand = append(sc.Hand, h)
 	}
@@ -746,7 +757,7 @@ func c09GenConv(t *rapid.T, idempotentMode bool) c09ConvScenario {
 
 const c09ConvRule = "Versions of 1-4 silence ids with pairwise distinct updated_at are produced by real Set/Expire calls on an authoring instance at generated virtual instants " +
 	"(create, in-place edit, matcher change = expire+recreate, expire; broadcast bytes captured) plus hand-built MeshSilence records (own updated_at/start/end/retention/comment/annotations, " +
-	"same matcher sets per id because the API never changes matchers in place, optionally the legacy single-matcher-list wire form), encoded with protodelim like marshalMeshSilence. " +
+	"same matcher sets per id as the API never changes matchers in place, except that one hand-built version in three of a hand-only id carries another id's matcher sets (the newest version's matchers count), optionally the legacy single-matcher-list wire form), encoded with protodelim like marshalMeshSilence. " +
 	"Two receiving instances get them via generated plans: random picks (duplicates), blobs of several records with unique ids per blob, real MarshalBinary full states of the peer/author, " +
 	"local API edits on either side whose broadcasts are delivered to the other side, then a drain in a per-side generated order/batching so that both have received the same set. " +
 	"Family A: all merges within one millisecond (no expires_at inside it); family B: generated gaps across ends and retention expiries, optional GC. " +
